@@ -250,7 +250,7 @@ fn plan_base(prop: &str) -> Vec<Item> {
                 v.push(it("sync_states", &format!("pool={},st=5,n=1,selfwake=1", pool), Some(2), 3));
             }
             v.push(it("sync_states", "pool=0,st=5,n=2,selfwake=1", Some(2), 3));
-            v.push(it("sync_states", "pool=2,st=7,n=2", Some(1), 2));
+            v.push(it("sync_states", "pool=2,st=7,n=2", Some(1), 1));
             v.push(it("sync_states", "pool=2,st=8,n=1", Some(2), 3));
             v.push(it("sync_states", "pool=2,st=3,n=2", Some(1), 2));
             v.push(it("f3_nested_sync", "pool=1", Some(3), 4));
